@@ -363,6 +363,8 @@ class Tr:
         k = self.kind
         if k == "S" and isinstance(val, S):
             return val.t
+        if k == "bool" and isinstance(val, B):
+            return val.t
         if k == "trip" and isinstance(val, Tup) and len(val.items) == 3 and all(isinstance(v, S) for v in val.items):
             return "(" + ", ".join(v.t for v in val.items) + ")"
         if k == "trip" and isinstance(val, MomV):
@@ -380,6 +382,8 @@ class Tr:
         stmts = strip_doc(list(stmts))
         for i, st in enumerate(stmts):
             self.nstmts += 1
+            if self.special(blk, st):
+                continue
             if isinstance(st, ast.Return):
                 if i != len(stmts) - 1:
                     raise Unsupported("statement after return")
@@ -461,6 +465,10 @@ class Tr:
         if need_return:
             raise Unsupported("the translated code falls off its end without a return")
         return blk
+
+    def special(self, blk: Blk, st) -> bool:
+        """hook for subclasses: statements with a dedicated translation (True = handled)"""
+        return False
 
     def is_coercion_guard(self, st: ast.If) -> bool:
         """`if not isinstance(v, ak.Array): v = _regularize_obj_position(v)` - a coercion, the value is unchanged"""
